@@ -8,7 +8,7 @@
    is an invariant of every run whose inputs are (run_rng). *)
 From PV Require Import Base.Prelude Base.Slice Model.ArpSpoof Spec.ArpSpoof
   Proofs.ArpSpoof Proofs.ArpSpoofLoops Proofs.ArpSpoofRx Proofs.ArpSpoofGlue.
-From PV Require Model.SendBase Model.SendNdp Spec.SendRef Model.ViewsBase Model.Views.
+From PV Require Model.SendBase Model.SendNdp Spec.SendRef Model.ViewsBase Model.Views Model.Tables.
 Open Scope N_scope.
 
 (* a frame record pushed through SEND's RequestRaw / reply on ANY pooled buffer content, read back by SEND's
@@ -112,3 +112,21 @@ Theorem C13_rx_decode_is_views : forall (p : slice) m,
                                     (N_of_bytes (sub (arr p) 18 6)) (N_of_bytes ti)).
 Proof. exact rx_decode_is_views. Qed.
 Print Assumptions C13_rx_decode_is_views.
+
+(* "holds a different outstanding DHCP offer" is a fact of the SESSION's MAC table (TABLES, Model/Tables.v): the
+   C13 offer list is the view of a TABLES state with unique MAC keys (an invariant of every reachable TABLES state,
+   Proofs/Tables.v), and the probe-reject decision reads MACEntry.IP4Offer of the probing MAC *)
+Theorem C13_offers_view_lookup : forall t m,
+  NoDup (map Model.Tables.m_mac (Model.Tables.macs t)) -> offer_of m (offers_view t) = tables_offer t m.
+Proof. exact offers_view_lookup. Qed.
+Print Assumptions C13_offers_view_lookup.
+
+Theorem C13_probe_reject_reads_tables : forall c s t p,
+  NoDup (map Model.Tables.m_mac (Model.Tables.macs t)) -> offers s = offers_view t ->
+  rx_answer c s p =
+  if closed s then RxNone
+  else if sp_is_probe p
+  then (if sp_reject_cond c (tables_offer t (psmac p)) p then RxQueue (probe_reject c p) else RxNone)
+  else (if sp_asks_router c p && hunted s (psmac p) then RxQueue (spoof_reply c p) else RxNone).
+Proof. exact probe_reject_reads_tables. Qed.
+Print Assumptions C13_probe_reject_reads_tables.
